@@ -223,6 +223,11 @@ func (g *Gen) genProgram(v2 bool, npk int, depth int) ([]GenPkg, []string) {
 					}
 					fmt.Fprintf(&b, "\t%s %s%s\n", fn, pg.ty(p, depth, false, di), tag)
 				}
+				if g.Chance(0.12) {
+					// blank fields: padding or markers; their storage is part of the struct all the same
+					fmt.Fprintf(&b, "\t_ %s\n", g.Pick([]string{"*int", "int32", "[0]int", "*int"}))
+					pg.classes["blank-field"] = true
+				}
 				if v2 {
 					for _, dd := range decls[p] {
 						if dd.kind == "generic" && g.Chance(0.5) {
